@@ -65,7 +65,7 @@ def judge(case, obs):
         i, op, out = rec["i"], rec["op"], rec["out"]
         if i > faulted:
             follow_io += rec["recv"]
-        if i == faulted and obs.net.fired:
+        if i == faulted and any((f[3] in fakenet.BASE_EXC_KINDS or f[3] in fakenet.BASE_EXC_DELIVERED) for f in obs.net.fired):
             if out[0] == "baseexc":
                 reached = 1
             else:
@@ -102,6 +102,27 @@ def run_group(res, stack, servers, cfg, label, op, warm, tier, rng):
         case = base_case(stack, servers, cfg, label, op, warm, seg, nprefix, rng)
         obs = history.execute(case)
         plans, calls = history.single_fault_plans(case, obs, tier, rng, base_exc=True)
+        # interrupts that arrive in sendall() after the request went out
+        for idx, typ, sid in calls:
+            if typ == fakenet.T_SENDALL:
+                for kind in fakenet.BASE_EXC_DELIVERED:
+                    plans.append({(case["faulted"], idx): kind})
+        # depth 2: an ordinary failure first, then an interrupt in one of the socket calls of the cleanup that follows
+        first, _ = history.single_fault_plans(case, obs, tier, rng, reply_faults=False,
+                                              kinds={"reset", "timeout", "refused", "oserror", "eof", "brokenpipe"})
+        for p1 in first:
+            c1 = dict(case)
+            c1["faults"] = p1
+            o1 = history.execute(c1)
+            if not o1.net.fired:
+                continue
+            (fc, fi), = p1.keys()
+            for idx, typ, sid in driver.socket_calls_by_call(o1.net).get(fc, []):
+                if idx > fi:
+                    for kind in (("kbint", "greenlet") if tier == "quick" else fakenet.BASE_EXC_KINDS):
+                        p2 = dict(p1)
+                        p2[(fc, idx)] = kind
+                        plans.append(p2)
         for plan in plans:
             c = dict(case)
             c["faults"] = plan
@@ -124,10 +145,14 @@ def run_group(res, stack, servers, cfg, label, op, warm, tier, rng):
                 res.violation(key, msg, c)
 
 
+EXTRA_OPS = [("get-illegal-key", ("get", ("bad key",), {})), ("set-illegal-key", ("set", ("bad key", b"v"), {"noreply": False})),
+             ("get_many-illegal-key", ("get_many", (["h1", "bad key"],), {}))]
+
+
 def groups(tier):
     out = []
     for stack, servers, cfg in STACKS:
-        for label, op in catalogue.ops_catalogue():
+        for label, op in catalogue.ops_catalogue() + EXTRA_OPS:
             if not catalogue.supports(stack, op[0]):
                 continue
             for warm in (0, 1):
